@@ -91,6 +91,11 @@ CHECKS = {
    text="For each of ~320 (quick) operations every execution of the real handler with at most one deviation (thorough two) is run; the set of outcomes (data, set of errors, per-service multiset of sub-requests) must be a singleton.",
    note="Map iteration inside dependencies is not enumerated; bounded number of simultaneous deviations.",
    ref="DESIGN.md §6 C13"),
+ "C14": dict(engine="sched", cat="model_checking",
+   technique="explicit enumeration of all request histories up to a depth over a collision-built operation alphabet plus clock ticks, each replayed on a fresh caching gateway and a plain twin under a virtual clock; plus preemption-bounded exhaustive schedule exploration of two concurrent clients on one caching gateway",
+   text="All histories of length <=3 (thorough 4) over 15 operations + tick for TTL in {0,1s,1h} (12k histories quick): every answer equals the plain planner's. Concurrent: 67 client pairs x 2 TTLs, every schedule with <=1 preemption at client granularity with RWMutex operations visible: every answer equals the plain planner's; no deadlock/fatal.",
+   note="Virtual clock (vrt); subscriptions interleaved with queries are covered in the C17/C18 harness only; data races on the shared plan are outside a cooperative scheduler's reach.",
+   ref="DESIGN.md §6 C14"),
 }
 
 NOT_YET = {}
